@@ -18,7 +18,7 @@ ASSUMPTIONS = ['a sibling header while a loop of the same level is still open is
                'data contains none of the writer\'s delimiters; control numbers are unique within their scope (reuse is the input\'s fault, not the writer\'s)',
                'check_837_lx (LX renumbering) left at its default']
 REQUIRED_COUNTERS = ['histories', 'runs', 'runs:cut', 'trailers:omitted', 'trailers:wrong', 'reader-rechecks', 'isa:00501', 'isa:00401']
-MIN_CASES = {'quick': 4000, 'thorough': 100000}
+MIN_CASES = {'quick': 4000, 'thorough': 1500000}
 
 TERMS = [('~', '*', ':', '^', '\n'), ('!', '|', '>', '^', ''), ('\x1c', '\x1d', '<', '\x1f', '\r\n'), ('\n', '*', ':', '^', ''), ('~', '*', '\\', '^', '\n'),
          ('\'', '+', ':', '!', '\n'), ('$', '^', '&', '#', '')]
@@ -214,7 +214,7 @@ def one(ctx, ev, cut, terms, meta):
 
 
 def run(ctx):
-    nh = (6000 if ctx.quick else 150000) // ctx.nshards
+    nh = (6000 if ctx.quick else 900000) // ctx.nshards
     sigs = set()
     n = 0
     for k in range(nh):
